@@ -10,7 +10,9 @@ open Mahotas Mahotas.C01
 
 /-- `_morph.erode(f, Bc, out)` as an image -/
 def erodeImg (dt : DT) (A : Img Int) (sup : List (List Int × Int)) : Img Int :=
-  { shape := A.shape, data := erodeModel dt A sup }
+  -- the kernel's running minimum without the early exit of `erodeModel`; the exit is unobservable
+  -- (`C01.erodeAtExit_eq` / `C01_erode_model_eq_spec`)
+  { shape := A.shape, data := ((allPos A.shape).map (erodeAt dt A sup)).toArray }
 
 /-- `_morph.dilate(f, Bc, out)` as an image -/
 def dilateImg (dt : DT) (A : Img Int) (sup : List (List Int × Int)) : Img Int :=
